@@ -541,10 +541,13 @@ func (g *gen) command() *Stmt {
 func (g *gen) wait() *Stmt {
 	vals := g.cfg.WaitVals
 	if len(vals) == 0 {
-		vals = []float64{0, 1, 2, 0.5, 2.75, 0.25, 3, 10, 0.1, 1.3, 600, 0.125}
+		vals = []float64{0, 1, 2, 0.5, 2.75, 0.25, 3, 10, 0.1, 1.3, 600, 0.125, 0.0009, 0.0109, 1.001, 2.0005, 0.00015, 0.0009765625, 59.9999}
 	}
 	v := vals[g.tp.Int(0, len(vals)-1, "waitval")]
 	if g.tp.Chance(20, "waitexpr") {
+		if g.tp.Bool("waithalf") {
+			return &Stmt{K: sWait, E: &Expr{K: eBin, Op: "/", A: []*Expr{{K: eNum, N: v * 2}, {K: eNum, N: 2}}}}
+		}
 		return &Stmt{K: sWait, E: &Expr{K: eBin, Op: "+", A: []*Expr{{K: eNum, N: v}, {K: eNum, N: 0}}}}
 	}
 	return &Stmt{K: sWait, E: &Expr{K: eNum, N: v}}
@@ -921,4 +924,54 @@ func (g *gen) hubProgram() *Program {
 		}
 	}
 	return p
+}
+
+// deepChain builds a chain of blocks nested `depth` deep (if-bodies and option bodies alternating at
+// random), one or two statements per level, so that deep continuation stacks are reached with small
+// scripts. The innermost body ends with `tail` (e.g. a stop or a jump) when given.
+func (g *gen) deepChain(depth int, tail *Stmt) *Stmt {
+	var inner []*Stmt
+	inner = append(inner, g.line())
+	if tail != nil {
+		inner = append(inner, tail, g.line())
+	}
+	var cur *Stmt
+	for d := depth; d >= 1; d-- {
+		body := inner
+		if g.tp.Bool("chainkind") {
+			cur = &Stmt{K: sIf, Clauses: []*Clause{{Cond: &Expr{K: eBool, B: true}, Body: body}}}
+		} else {
+			o := &Option{Line: g.lineS(true), Body: body}
+			cur = &Stmt{K: sOptions, Options: []*Option{o}}
+			if g.tp.Chance(30, "chainsibling") {
+				cur.Options = append(cur.Options, &Option{Line: g.lineS(true)})
+			}
+		}
+		inner = []*Stmt{cur}
+		if g.tp.Chance(40, "chainafter") {
+			inner = append(inner, g.line())
+		}
+	}
+	return cur
+}
+
+// addDeepChain puts a deep chain into a random node of p.
+func (g *gen) addDeepChain(p *Program, tailKinds []string) int {
+	depth := g.tp.Int(6, 12, "chaindepth")
+	var tail *Stmt
+	switch tailKinds[g.tp.Int(0, len(tailKinds)-1, "chaintail")] {
+	case "stop":
+		tail = &Stmt{K: sStop}
+	case "jump":
+		tail = &Stmt{K: sJump, Target: p.Nodes[g.tp.Int(0, len(p.Nodes)-1, "chaintarget")].Title}
+	}
+	n := p.Nodes[g.tp.Int(0, len(p.Nodes)-1, "chainnode")]
+	ch := g.deepChain(depth, tail)
+	at := g.tp.Int(0, len(n.Body), "chainat")
+	// keep option groups apart
+	body := append([]*Stmt{}, n.Body[:at]...)
+	body = append(body, g.line(), ch, g.line())
+	body = append(body, n.Body[at:]...)
+	n.Body = body
+	return depth
 }
